@@ -96,9 +96,26 @@ package keeper
 // fail (A-store); the bodies touch only the entries of their own key and the produced updates are a set
 // (CometBFT sorts validator updates, A-comet). This is declared, not proved.
 //@ func (Keeper).EndBlocker
-//@ property C07
-//@ trusted
+//@ property C07 C13 C19
+//@ nopanic
 //@ opt maporder0=returns-dead: members of ValidatorSet have a Validators record (RI L2); collections Set/Remove do not fail
+// C13, per-step safety of the set update under the ranking representation invariant (the iterators and the map loop are
+// abstracted to arbitrary sequences of stored entries, A-iter / A-maprange, so completeness clauses - "exactly the top K",
+// "every leftover member is removed" - are out of reach; what every step does is not):
+//   RI-rank: a ranking entry (p, a) belongs to a stored validator a with Power == p > 0 that is Pending or Active
+//   (kept by lock, unlock, the punishments and onWeightChanged: their contracts); RI-set: a recorded member has a record.
+//@ requires ri_rank: forall(p, 0, 18446744073709551616, forallb(a, has(st.locking.PowerRanking, pair(p, a)) ==> has(st.locking.Validators, a) && st.locking.Validators[a].Power == p && p > 0 && (st.locking.Validators[a].Status == 1 || st.locking.Validators[a].Status == 2)))
+//@ requires ri_set: forallb(a, has(st.locking.ValidatorSet, a) ==> has(st.locking.Validators, a))
+//@ writesite locking.ValidatorSet positive_power: val > 0
+//@ writesite locking.ValidatorSet records_power: has(st.locking.Validators, key) && val == st.locking.Validators[key].Power
+//@ writesite locking.Validators status_step: has(st.locking.Validators, key) && val.Power == st.locking.Validators[key].Power && ((st.locking.Validators[key].Status == 1 && val.Status == 2) || (st.locking.Validators[key].Status == 2 && val.Status == 1))
+//@ ensures ri_rank_kept: err == nil ==> forall(p, 0, 18446744073709551616, forallb(a, has(st.locking.PowerRanking, pair(p, a)) ==> has(st.locking.Validators, a) && st.locking.Validators[a].Power == p && p > 0 && (st.locking.Validators[a].Status == 1 || st.locking.Validators[a].Status == 2)))
+//@ ensures ri_set_kept: err == nil ==> forallb(a, has(st.locking.ValidatorSet, a) ==> has(st.locking.Validators, a))
+//@ loop 0 invariant true
+//@ loop 1 invariant ri_rank: forall(p, 0, 18446744073709551616, forallb(a, has(st.locking.PowerRanking, pair(p, a)) ==> has(st.locking.Validators, a) && st.locking.Validators[a].Power == p && p > 0 && (st.locking.Validators[a].Status == 1 || st.locking.Validators[a].Status == 2)))
+//@ loop 1 invariant ri_set: forallb(a, has(st.locking.ValidatorSet, a) ==> has(st.locking.Validators, a))
+//@ loop 2 invariant ri_rank: forall(p, 0, 18446744073709551616, forallb(a, has(st.locking.PowerRanking, pair(p, a)) ==> has(st.locking.Validators, a) && st.locking.Validators[a].Power == p && p > 0 && (st.locking.Validators[a].Status == 1 || st.locking.Validators[a].Status == 2)))
+//@ loop 2 invariant ri_set: forallb(a, has(st.locking.ValidatorSet, a) ==> has(st.locking.Validators, a))
 //@ modifies st.locking.ValidatorSet, st.locking.Validators
 
 // ---- C13: a token weight change re-ranks every holder of the token -------------------------------------------------
